@@ -134,9 +134,9 @@ inline bool parseWorld(const std::string& spec, World& w, std::string* err = nul
         if (isLeafKey(d.reactReq.key)) leaves.insert(d.reactReq.key);
       } else if (t[0] == '!') {
         d.hasDisc = true;
-        if (t.size() < 2 || !isLeafKey(t[1])) return fail("bad discovered leaf");
-        d.discLeaf = t[1];
-        leaves.insert(t[1]);
+        if (t.size() < 2) return fail("bad discovered key");
+        d.discLeaf = t[1];  // a leaf is read directly; a derived key is only reported (value-neutral)
+        if (isLeafKey(t[1])) leaves.insert(t[1]);
         if (t.size() > 2) {
           if (t.size() != 6 || t[2] != '@' || t[4] != '=') return fail("bad discovered condition");
           d.discOn = t[3] - '0';
@@ -173,6 +173,7 @@ inline bool parseWorld(const std::string& spec, World& w, std::string* err = nul
     for (auto& kv : *m) {
       for (auto& r : kv.second.start) if (!checkKey(r.key)) return fail(std::string("undefined key ") + r.key);
       if (kv.second.hasReact && !checkKey(kv.second.reactReq.key)) return fail("undefined reaction key");
+      if (kv.second.hasDisc && !checkKey(kv.second.discLeaf)) return fail("undefined discovered key");
     }
   for (char c : leaves) w.leaves += c;
   for (auto& kv : w.rules) w.derived += kv.first;
@@ -240,14 +241,28 @@ struct Ref {
       if (cycle) { stack.pop_back(); return ""; }
       if (d.reactReq.mode == Mode::N) vals.push_back(v);
     }
+    char later = 0;
     if (d.hasDisc && (d.discOn < 0 || d.discPar == 2 || parity(got[d.discOn]) == d.discPar)) {
       visited.insert(d.discLeaf);
-      auto it = e.s.find(d.discLeaf);
-      reads.push_back(leafValue(d.discLeaf, it == e.s.end() ? 0 : it->second));
+      if (isLeafKey(d.discLeaf)) {
+        auto it = e.s.find(d.discLeaf);
+        reads.push_back(leafValue(d.discLeaf, it == e.s.end() ? 0 : it->second));
+      } else {
+        later = d.discLeaf;
+      }
     }
     stack.pop_back();
     std::string v = computeValue(d, k, vals, reads);
     memo[k] = v;
+    // A discovered DERIVED key is only reported, not read: it does not feed the value, but a clean build brings it
+    // up to date after this rule has completed (so this rule is no longer on the wait-for stack).
+    if (later) {
+      std::vector<char> saved;
+      saved.swap(stack);
+      eval(later);
+      stack.swap(saved);
+      if (cycle) return "";
+    }
     return v;
   }
 };
